@@ -104,7 +104,7 @@ Theorem label_expression_value ss l op r a b :
   term_value ss l = Ok a -> term_value ss r = Ok b ->
   calc_offset_z ss l op r = match arith op a b with Some z => Ok z | None => Diag 2 end.
 Proof.
-  intros Hl Hr. unfold calc_offset_z, arith. rewrite Hl, Hr. cbn [bind].
+  intros Hl Hr. unfold calc_offset_z, offset_arith, arith. rewrite Hl, Hr. cbn [bind].
   destruct (op =? 43); [reflexivity|]. destruct (op =? 45); [reflexivity|]. destruct (op =? 42); [reflexivity|].
   destruct (b =? 0)%Z; reflexivity.
 Qed.
@@ -115,6 +115,25 @@ Proof. intros H1 H2. unfold term_value, addr_of. rewrite H1, H2. reflexivity. Qe
 
 Theorem constant_term_is_its_number ss n : term_value ss (VNum n) = Ok (num_val n).
 Proof. reflexivity. Qed.
+
+(* a term that is itself label arithmetic (an EQU symbol defined by it) stands for that arithmetic on ITS terms - not for 0
+   (false upstream: repair F56) - whenever the result is a value the assembler can hold (at most 65535) *)
+Theorem nested_term_is_its_value ss l op r m a b z :
+  term_value ss l = Ok a -> term_value ss r = Ok b -> arith op a b = Some z -> (z <= 65535)%Z ->
+  term_value ss (VExpr l op r m true) = Ok z.
+Proof.
+  intros Hl Hr Ha Hz. cbn [term_value]. rewrite Hl, Hr. cbn [bind].
+  assert (Ho : offset_arith op a b = Ok z).
+  { unfold offset_arith, arith in *. destruct (op =? 43); [congruence|]. destruct (op =? 45); [congruence|]. destruct (op =? 42); [congruence|].
+    destruct (b =? 0)%Z; [discriminate | congruence]. }
+  rewrite Ho. cbn [bind]. unfold num_of_Z, num_of_int.
+  assert (E : (negb (z <? 0)%Z && (65535 <? Z.to_N (Z.abs z))) = false).
+  { destruct (z <? 0)%Z eqn:Ez; [reflexivity|]. cbn [negb andb]. apply N.ltb_ge. apply Z.ltb_ge in Ez. lia. }
+  rewrite E. destruct (post_init _ _ _) as [h m']. cbn [as_translation_error bind n_neg n_int]. f_equal.
+  destruct (z <? 0)%Z eqn:Ez; cbn [andb].
+  - apply Z.ltb_lt in Ez. assert (En : (Z.to_N (Z.abs z) =? 0) = false) by (apply N.eqb_neq; lia). rewrite En. cbn [negb]. lia.
+  - apply Z.ltb_ge in Ez. lia.
+Qed.
 
 (* ---------- (4) what is emitted ---------- *)
 Lemma calc_offset_value ss l op r v : calc_offset ss l op r = Ok v ->
